@@ -1,4 +1,5 @@
 import WfProofs.LifecycleSafe
+import WfModel.GenLifecycleShape
 import WfProofs.LifecycleCover
 import WfProofs.LifecycleRow
 import WfProofs.LifecycleReplay
@@ -16,7 +17,7 @@ engine's replay theorem C11), lock discipline (`C36_no_release_while_sending`).
 
 DBOS stack: the release protocol is proved over the lifecycle row *if the row exists*
 (`C36_dbos_release_resume_partial`) — but no production code path ever inserts it
-(`GenLifecycle.createCallSites = []`), so `begin_release` never wins and a DBOS run is never released
+(`GenLifecycleShape.createCallSites = []`), so `begin_release` never wins and a DBOS run is never released
 (`C36_refuted_dbos_never_released`).
 -/
 set_option linter.unusedVariables false
@@ -27,20 +28,20 @@ open Lifecycle
 `idle_since` is set; `elapsed < idle_timeout` → return; return unless active; then `discard` + abort.
 `_deferred_release` sleeps `idle_timeout` first.  Default timeout 60 s. -/
 theorem C36_source_shape :
-    GenLifecycle.shape_ir_release =
+    GenLifecycleShape.shape_ir_release =
       ["with(self._reload_lock)", "await(self._store.query)", "if(Is,NotEq,Or;idle_since,None)", "return", "endif",
        "call(?.total_seconds)", "call(datetime.now)", "if(Lt;_idle_timeout)", "return", "endif",
        "if(NotIn;_active_run_ids)", "return", "endif", "call(self._abort_inner_run)", "call(self._active_run_ids.discard)",
        "endwith"] ∧
-    GenLifecycle.shape_ir_deferred = ["await(asyncio.sleep)", "await(self._release_idle_handler)"] ∧
+    GenLifecycleShape.shape_ir_deferred = ["await(asyncio.sleep)", "await(self._release_idle_handler)"] ∧
     GenLifecycle.elapsedCmp = "Lt" ∧ (∀ a b, GenLifecycle.elapsedTooShort a b = decide (a < b)) ∧
-    GenLifecycle.idleDefaultMs = 60000 ∧ GenLifecycle.dbosIdleDefaultMs = 60000 ∧
-    GenLifecycle.shape_dbos_deferred =
+    GenLifecycleShape.idleDefaultMs = 60000 ∧ GenLifecycleShape.dbosIdleDefaultMs = 60000 ∧
+    GenLifecycleShape.shape_dbos_deferred =
       ["await(asyncio.sleep)", "call(self._deferred_release_tasks.pop)", "await(self._release_idle_handler)"] ∧
-    GenLifecycle.shape_dbos_write =
+    GenLifecycleShape.shape_dbos_write =
       ["call(super)", "await(super().write_to_event_stream)", "if(;WorkflowIdleEvent)",
        "call(self._runtime._schedule_deferred_release)", "endif"] ∧
-    GenLifecycle.shape_dbos_wait_receive =
+    GenLifecycleShape.shape_dbos_wait_receive =
       ["call(super)", "await(super().wait_receive)", "if(;WaitResultTick)", "call(self._runtime._cancel_deferred_release)",
        "endif", "return"] := by
   refine ⟨by decide, by decide, by decide, fun _ _ => rfl, by decide, by decide, by decide, by decide, by decide⟩
@@ -242,7 +243,7 @@ the row `begin_release` matches nothing: along every schedule that does not cont
 there is never a row, no releaser ever wins, no TickIdleRelease is ever sent, the workflow stays up — a DBOS run
 is never released, however long it is idle. -/
 theorem C36_refuted_dbos_never_released :
-    GenLifecycle.createCallSites = [] ∧
+    GenLifecycleShape.createCallSites = [] ∧
     (∀ (acts : List BAct), (∀ a ∈ acts, a ≠ .create) →
       (brun {} acts).db = none ∧ (brun {} acts).wfUp = true ∧ (brun {} acts).wins = [] ∧
       ∀ i, (brun {} acts).rel i = .absent ∨ (brun {} acts).rel i = .start ∨ (brun {} acts).rel i = .lostCas) ∧
